@@ -407,13 +407,27 @@ def known_pools():
     return K
 
 
-def is_collision_class(spec):
-    """input class of the known finding cache-key-hash-collision: labels are kept as given
-    (canonicalize=False) and contain two different ints with the same CPython hash"""
+def _int_labels(spec):
     if spec.get("canonicalize") is not False or spec.get("inputs") is None:
+        return None
+    return {ix for t in spec["inputs"] for ix in t if isinstance(ix, int) and not isinstance(ix, bool)}
+
+
+def is_collision_class(spec, earlier):
+    """input class of the known finding cache-key-hash-collision: the failing call and an earlier
+    call of the sequence both keep their labels as given (canonicalize=False) and together use
+    two different ints with the same CPython hash (-1 and -2)"""
+    mine = _int_labels(spec)
+    if mine is None:
         return False
-    labs = {ix for t in spec["inputs"] for ix in t if isinstance(ix, int) and not isinstance(ix, bool)}
-    return any(a != b and hash(a) == hash(b) for a in labs for b in labs)
+    for e in list(earlier) + [spec]:
+        other = _int_labels(e)
+        if other is None:
+            continue
+        labs = mine | other
+        if any(a != b and hash(a) == hash(b) for a in labs for b in labs):
+            return True
+    return False
 
 
 def is_unhashable_class(spec, res):
@@ -502,7 +516,7 @@ def judge_sequence(ctx, pool, specs, results, oracle, np, where, known_key=None)
             key = None
             cached = all(s.get("cache", True) for s in specs)
             wrong_answer = not res.get("exc")       # a wrong value / a shared object, not an exception
-            if known_key == KEY_COLLISION and cached and wrong_answer and is_collision_class(spec):
+            if known_key == KEY_COLLISION and cached and wrong_answer and is_collision_class(spec, specs[:i]):
                 key = KEY_COLLISION
             if known_key == KEY_UNHASHABLE and cached and is_unhashable_class(spec, res):
                 key = KEY_UNHASHABLE
@@ -918,16 +932,11 @@ def run(ctx):
             env = L.env()
             kx = "expr_key_expr" if which == "expr" else "path_key_expr"
             fb = "expr_typeerror_fallback" if which == "expr" else "path_typeerror_fallback"
-            cases.append(("seq%d" % si, "trace_raw %s %s %s %s" % (env, kx, fb, raws),
-                          "Some (%s, %s)" % (obsl, keyl)))
+            cases.append(("seq%d" % si,
+                          "observe_raw %s %s %s [%s] %s" % (env, kx, fb, "; ".join(str(i) for i, _ in normcases), raws),
+                          "(Some (%s, %s), [%s])" % (obsl, keyl, "; ".join("Some %s" % lit for _, lit in normcases))))
             records.append({"which": which, "style": style, "calls": repr(calls), "observed": repr(obs),
-                            "keys": repr(keys)})
-            for i, lit in normcases:
-                cases.append(("seq%d.norm%d" % (si, i),
-                              "normalized_fields (nth %d %s (mkRaw [] None None None PNone false false [] false false))" % (i, raws),
-                              "Some %s" % lit))
-                records.append({"which": which, "style": style, "calls": repr(calls), "call": i,
-                                "compute_args": repr(norm[i])})
+                            "keys": repr(keys), "compute_args": repr(norm)})
             feats = set()
             for (o, _), c in zip(obs, calls):
                 feats.add(["miss", "hit", "typeerror"][o])
@@ -946,7 +955,9 @@ def run(ctx):
             ctx.count("corr:style:" + style)
             ctx.case(("corr", repr(calls)), nontrivial=("hit" in feats and "miss" in feats),
                      sample={"which": which, "calls": repr(calls)[:600], "observed": repr(obs)} if si < 2 else None)
-        failing = ctx.coq_cases("c13", ["Base", "CacheState", "CacheKey"], cases, chunk=60)
+        ctx.log("correspondence: %d sequences run against the real caches, %d Coq cases" % (nseq, len(cases)))
+        failing = ctx.coq_cases("c13", ["Base", "CacheState", "CacheKey"], cases, chunk=max(8, len(cases) // 16 + 1))
+        ctx.log("correspondence: %d cases evaluated in Coq, %d disagree" % (len(cases), len(failing)))
         for idx, label, val in failing:
             rec = dict(records[idx]) if idx < len(records) else {}
             rec["model_value"] = val
@@ -958,6 +969,7 @@ def run(ctx):
         # ---- 2b. dispatch tables ---------------------------------------------------------
         dispatch_correspondence(ctx, I, ctg, info, rng)
 
+    ctx.log("dispatch correspondence done")
     # ---- 3. oracle -----------------------------------------------------------------------
     P = pools()
     K = known_pools()
